@@ -625,6 +625,69 @@ func (g *Gen) idxAdd(a, b string) string {
 	}
 	return "(+ " + a + " " + b + ")"
 }
+// elemIdx: position off+i in a backing array. In int mode the sum is wrapped in the function `ix`
+// (axiom: ix(o,i) = o+i) so that quantifier patterns over element accesses are not destroyed by the
+// solver's flattening of nested sums; a literal zero offset needs no wrapper.
+func (g *Gen) elemIdx(off, i string) string {
+	if g.mode == "bv" {
+		return g.idxAdd(off, i)
+	}
+	if off == "0" {
+		return i
+	}
+	// re-associate nested offsets: ix(ix(a,b), i) is written ix(a, b+i), so that every access to one
+	// backing array through any sub-slice has the shape ix(a, _) that quantifier patterns expect
+	if strings.HasPrefix(off, "(ix ") {
+		if args := splitArgs(off[4 : len(off)-1]); len(args) == 2 {
+			return "(ix " + args[0] + " (+ " + args[1] + " " + i + "))"
+		}
+	}
+	return "(ix " + off + " " + i + ")"
+}
+
+// splitArgs splits the top-level arguments of an s-expression body.
+func splitArgs(s string) []string {
+	var res []string
+	depth, start := 0, -1
+	inBar := false
+	for i := 0; i < len(s); i++ {
+		c := s[i]
+		if inBar {
+			if c == '|' {
+				inBar = false
+			}
+			continue
+		}
+		switch c {
+		case '|':
+			inBar = true
+			if depth == 0 && start < 0 {
+				start = i
+			}
+		case '(':
+			if depth == 0 && start < 0 {
+				start = i
+			}
+			depth++
+		case ')':
+			depth--
+		case ' ':
+			if depth == 0 && start >= 0 {
+				res = append(res, s[start:i])
+				start = -1
+			}
+		default:
+			if depth == 0 && start < 0 {
+				start = i
+			}
+		}
+	}
+	if start >= 0 {
+		res = append(res, s[start:])
+	}
+	return res
+}
+
 func (g *Gen) idxSub(a, b string) string {
 	if g.mode == "bv" {
 		return "(bvsub " + a + " " + b + ")"
